@@ -193,6 +193,10 @@ var unqueuedCmdTable = map[string]bool{
 }
 
 func (ctx *cmdContext) info(cs *clientState) string {
+	// the client's watched keys can be in other databases, which are locked one by one
+	multiDataStoreLock.Lock()
+	defer multiDataStoreLock.Unlock()
+
 	// take complete ownership of the data store
 	ctx.dsc.acquireExclusive()
 	defer ctx.dsc.releaseExclusive()
@@ -216,7 +220,12 @@ func (ctx *cmdContext) infoUnlocked(cs *clientState) string {
 	if cs.client.IsCloseRequested() {
 		flags.WriteRune('c')
 	}
-	if isAbortedExecUnlocked(cs) {
+	held := ctx.dsc.ds
+	if ctx.execDsc != nil {
+		// inside EXEC the owned database is the one of the transaction
+		held = ctx.execDsc.ds
+	}
+	if isAbortedExecUnlocked(cs, held) {
 		flags.WriteRune('d')
 	}
 	if cs.isMultiInProgress() {
